@@ -20,12 +20,19 @@ from translator.pyexpr import TranslateError
 
 HERE = os.path.dirname(os.path.dirname(os.path.abspath(__file__)))
 
-THEOREM_FILES = ["C17_splits.v", "C17_proj.v", "C17_scale.v", "C17_history.v", "C17_history_damage.v"]
+THEOREM_FILES = ["C17_splits.v", "C17_proj.v", "C17_scale.v", "C17_assembly.v", "C17_degenerate3d.v", "C17_miehe2d.v",
+                 "C17_history.v", "C17_history_damage.v"]
+# compile-order dependencies between the theorem files (all need Gen_Splits.v)
+DEPS = {"C17_scale.v": ["C17_proj.v"], "C17_assembly.v": ["C17_scale.v"], "C17_degenerate3d.v": ["C17_proj.v"],
+        "C17_miehe2d.v": ["C17_assembly.v", "C17_splits.v"]}
 # which concrete-failure key prefixes "explain" a broken theorem file
 RELATED = {
     "C17_splits.v": ("partition:", "law:"),
     "C17_proj.v": ("eig:2d", "nonfinite:2d", "eig:3d:generic", "proj:2d"),
     "C17_scale.v": ("scale-invariance:",),
+    "C17_assembly.v": ("proj:2d", "eig:2d", "scale-invariance:2d", "nonfinite:2d"),
+    "C17_miehe2d.v": ("proj:2d", "partition:2d", "scale-invariance:2d", "eig:2d"),
+    "C17_degenerate3d.v": ("eig:3d", "proj:3d", "nonfinite:3d", "scale-invariance:3d"),
     "C17_history.v": ("history-", "damage-decreases:BoundConstrain", "damage-without-load", "damage-imposed-lost:BoundConstrain"),
     "C17_history_damage.v": ("damage-decreases:HistoryDamage", "damage-not-stored:HistoryDamage", "damage-imposed-lost:HistoryDamage"),
     # the translator is fail-closed on any unrecognised statement: any NEW concrete failing input explains it
@@ -177,10 +184,33 @@ def run(ctx):
             broken["Gen_Splits.v"] = r.log[-1500:]
         else:
             ctx.copy_props(*["C17/" + f for f in THEOREM_FILES])
-            for f in THEOREM_FILES:
-                r = ctx.coq([f], timeout=600)
-                if not r.ok:
-                    broken[f] = r.log[-1500:]
+            # independent files are compiled concurrently (at most 3 coqc at a time), dependents after
+            # their prerequisites; a file whose prerequisite broke is skipped, not reported separately
+            from concurrent.futures import ThreadPoolExecutor, wait, FIRST_COMPLETED
+            done, skipped, running = {}, set(), {}
+            todo = list(THEOREM_FILES)
+            with ThreadPoolExecutor(max_workers=3) as ex:
+                while todo or running:
+                    for f in list(todo):
+                        deps = DEPS.get(f, [])
+                        if any(d in skipped or (d in done and not done[d]) for d in deps):
+                            todo.remove(f)
+                            skipped.add(f)
+                            ctx.obligation("coqc:" + f, False, "not compiled: prerequisite %s did not compile" % deps)
+                        elif all(d in done for d in deps):
+                            todo.remove(f)
+                            running[ex.submit(ctx.coq, [f], 600)] = f
+                    if not running:
+                        continue
+                    fin, _ = wait(list(running), return_when=FIRST_COMPLETED)
+                    for fu in fin:
+                        f = running.pop(fu)
+                        r = fu.result()
+                        done[f] = r.ok
+                        if not r.ok:
+                            broken[f] = r.log[-1500:]
+            if skipped:
+                ctx.log("skipped (prerequisite broken):", sorted(skipped))
     ctx.log("theorem files broken:", sorted(broken) or "none")
     # ---- 3. correspondence / search -----------------------------------------------------
     keys = []
@@ -259,8 +289,10 @@ def run(ctx):
                       {"replay_py": REPLAY_COQ % dict(file=f, log=lg[-1200:]), "obligation": f}, found_input=False)
     ctx.assumptions += [
         "Theorems are over exact reals; floating-point behaviour of the closed-form eigen routines is covered by the correspondence runs only.",
-        "Scale invariance is proved for Rp/Rm, the 2-D eigenvalues/projectors, the inputs of the 3-D case selection (g_neq_0 test, Lode argument) and the Sylvester formulas; invariance of the assembled projP is sampled over 14 decades of magnitude with exact power-of-two scalings.",
-        "3-D: only the Sylvester projector formulas for three distinct roots are proved (proj3d_distinct_partial); the arccos root formula, its degenerate branches and the assembly of projP from (eigenvalues, eigenprojectors) are checked by correspondence, not proved.",
+        "Scale invariance is proved for Rp/Rm, the 2-D eigenvalues/projectors and the assembled 2-D projP, the inputs of the 3-D case selection (g_neq_0 test, Lode argument) and the Sylvester formulas; invariance of the assembled 3-D projP is sampled over 14 decades of magnitude with exact power-of-two scalings.",
+        "2-D assembly theorem: the routine receives the Kelvin-Mandel packing of A (Project_matrix_to_vector is translated; its inverse Project_vector_to_matrix is assumed to be the inverse packing, checked by the eigen correspondence).",
+        "3-D degenerate branches: proved given the double-root Vieta relations; which branch the floating-point theta comparison selects, and the Frobenius normalisation of M1, M3, are not modelled.",
+        "3-D: the projector formulas of all four branches are proved to be spectral resolutions given the characteristic-polynomial relations (proj3d_distinct_partial, proj3d_case2/3/4); the arccos root formula (that the returned values ARE the roots), the branch selection and the 3-D assembly of projP are checked by correspondence, not proved.",
         "Hypotheses of the partition theorems about the material law (C = lamb IxI + 2 mu I, bulk, C^T S C = C, inv_sqrtC sqrtC = I, Stress-split compliance coefficients) are checked numerically on the implementation at 1e-10.",
         "Det/Trace of 2x2 and Project_vector_to_matrix are modelled by hand (checked by the eigen correspondence).",
         "BoundConstrain: scipy.optimize.lsq_linear is trusted to return a point within its bounds; the theorem quantifies over every admissible point.",
